@@ -4,11 +4,47 @@ import json, subprocess, sys
 
 # id -> (technique, level text, level note, design ref); only claimed properties are listed
 CLAIMED = {
+    "C03": (
+        "proptest stateful vote/certificate sequences against a stake reference model + receiver-side validation (differential)",
+        "Generated-input search over vote and received-certificate sequences (threshold-exact stakes, duplicates, conflicts, every arrival order sampled); per call a u128 stake model over the accepted votes predicts exactly which certificates must appear; each created certificate is re-validated as a receiver would and its signer set compared with the accepted voters. Right level: the property quantifies over input sequences and has an executable exact oracle.",
+        "BLS verification trusted; vote verdicts taken from the pool (C04 checks them); inputs only <20 % Byzantine stake can not produce conflicting notar/fast-final certificates (such cases end as unsafe-input); n <= 10 validators",
+        "DESIGN.md §5 C03",
+    ),
+    "C04": (
+        "proptest vote sequences against a decision table written from the statement; exhaustive ordered kind pairs as fixed regression cases",
+        "Generated-input search: every vote's verdict is compared with an independent decision table (SlotOutOfBounds | Slashable(any applicable kind) | Duplicate | Ok) including bounds moved by finalisation; all 49 ordered (kind,block) pairs are replayed on every run. Right level: admission is a pure function of the per-validator history.",
+        "slashable has priority over duplicate; either of two applicable offence kinds accepted; n <= 6",
+        "DESIGN.md §5 C04",
+    ),
+    "C06": (
+        "proptest interleavings of votes, own votes, block registrations and parent certificates against a predicate model evaluated after every call",
+        "Generated-input search over the four trigger kinds in generated order with threshold-exact stakes; after every pool call the two predicates of the statement are recomputed from the accepted history and the emitted events must equal the newly true predicates (only-if, at most once, as soon as).",
+        "genesis / pruned parents have no certificate the node holds; own fallback votes follow the own initial vote; cases end when a child slot is finalised",
+        "DESIGN.md §5 C06",
+    ),
+    "C07": (
+        "proptest deliveries (order, duplication, cert-or-votes) of constructively consistent worlds against a reachability model",
+        "Generated-input search over consistent multi-window histories delivered in generated orders with pruning mid-history; after every call parents_ready(s), the ParentReady announcements and registered waiters are compared with a reachability model recomputed from the set of certificates and links (order-free).",
+        "finalisation steps must announce only the highest window (documented filter); one waiter per window; worlds exclude unsafe certificate sets by construction",
+        "DESIGN.md §5 C07",
+    ),
+    "C08": (
+        "proptest deliveries of consistent worlds against a finality / watermark model, with retention read through hooks",
+        "Generated-input search as for C07; after every call finalized_slot(), the finalisation log, the pruning watermark (equality), per-container retention, out-of-bounds verdicts and queries are compared with a closure model over certificates held and links registered.",
+        "hook accessors (verif-hooks) are read-only views of pool state; worlds exclude unsafe certificate sets by construction",
+        "DESIGN.md §5 C08",
+    ),
     "C15": (
         "proptest generated trees + mutation of (leaf, index, root, proof) against an independent reference Merkle tree (semantic truth model)",
         "Generated-input search: every tuple derived from a real tree by 0..3 mutations is decided by an independent reference tree over the padded leaf list (exact iff-oracle for check_proof and check_proof_last, incl. subtree roots); shrunk counterexample on failure. Right level because the property is a pure function over inputs with an executable exact oracle.",
         "SHA-256 collision resistance; leaf counts <= 4097; proptest RNG seeded from VERIF_SEED",
         "DESIGN.md §5 C15",
+    ),
+    "C18": (
+        "proptest pool histories with standstill triggers at generated prefixes; bundle validity + replay into a fresh pool (differential) + real Votor forwarding",
+        "Generated-input search over consistent worlds with recovery triggered at generated points (incl. empty history); the bundle is checked for completeness against the certificates the pool reported and the accepted own votes, validated as a receiver would, replayed into a fresh pool of another identity (same finalized slot, same ready parents) and pushed through a real Votor that has pruned ahead.",
+        "worlds exclude unsafe certificate sets; the Votor runs on a paused single-thread runtime",
+        "DESIGN.md §5 C18",
     ),
 }
 
